@@ -64,6 +64,14 @@ def check(inp):
             return fail("every sample is non-empty and has as many annotators as the ground truth", inp, list(s.annotators), gt)
         if inp["sampler"] == "stat" and list(s.annotators) != gt:
             return fail("statistical samples have exactly the ground-truth annotators", inp, list(s.annotators), gt)
+        if inp["sampler"] != "stat":
+            # every sampled annotator carries the durations and labels of one ground-truth annotator
+            sig = lambda us: sorted((round(float(e) - float(b), 6), l or "") for (b, e, l) in us)      # noqa: E731
+            gts = [sig(spec[g_]) for g_ in gt]
+            for ann in s.annotators:
+                mine = sig([(u.segment.start, u.segment.end, u.annotation) for u in s.iter_annotator(ann)])
+                if mine not in gts:
+                    return fail("chance continua are made of the ground-truth annotators' units only", inp, mine, gts)
         for ann in s.annotators:
             for u in s.iter_annotator(ann):
                 if not u.segment.end - u.segment.start > 1e-6:
